@@ -44,6 +44,21 @@ def normalised(term, base_pred=None):
     return None
 
 
+def rule_stack(ctx):
+    """R1-R3 for stack(): the structural reading below knows one way of writing it; when it complains, the interpretation of stack() on abstract arrays decides (same
+    and differing labels - also on singleton dimensions -, permuted and rotated dimension orders, dict / tuple inputs, align=True)."""
+    from ..report import on_trial
+    for rid, desc, n in (('R1', 'alignment safeguard', 1), ('R2', 'dims-order agreement before a positional join', 1), ('R3', 'placement coherence', 1)):
+        ctx.rule(rid, desc, n)
+    on_trial(ctx, _rule_stack_structural, [AL + 'stack'], ('R1', 'R2', 'R3'), 'stack')
+
+
+def rule_concatenate(ctx):
+    """the same for concatenate()"""
+    from ..report import on_trial
+    on_trial(ctx, _rule_concatenate_structural, [AL + 'concatenate'], ('R1', 'R2', 'R3'), 'concatenate')
+
+
 def _by_scenarios(ctx, q, done):
     """The values are collected / the inputs brought to a common dimension order in a form the structural clauses do not read (a helper per input, a list that is
     rebuilt step by step ...): whether inputs with the same dimensions in another order are matched by name, and what the result's axes are, is read off the
@@ -57,7 +72,7 @@ def _by_scenarios(ctx, q, done):
         rule_scenarios(ctx, rid, only=q, title='%s (%s: interpreted scenarios)' % (what, q.rsplit('.', 1)[-1]))
 
 
-def rule_stack(ctx):
+def _rule_stack_structural(ctx):
     own_check = [False]
     done = set()
     ctx.rule('R1', 'alignment safeguard', 5)
@@ -185,7 +200,7 @@ def rule_stack(ctx):
         ctx.violated('R1', ga, '_get_axes', '_get_axes must raise ValueError when a non-singleton axis differs (label-wise) from the reference axis of that name')
 
 
-def rule_concatenate(ctx):
+def _rule_concatenate_structural(ctx):
     fi = ctx.fn(AL + 'concatenate')
     done = set()
 
